@@ -5,6 +5,7 @@ mod out;
 mod ov;
 mod pure_modes;
 mod rec;
+mod sweep;
 mod user;
 
 use deserr::errors::{JsonError, QueryParamError};
